@@ -707,6 +707,11 @@ func (w *World) strLit(s string) string {
 			ax = append(ax, fmt.Sprintf("(assert (= (bat %s %d) %d))", name, i, s[i]))
 		}
 	}
+	for _, lp := range w.Specs.LitPreds {
+		if lp.Re.MatchString(s) {
+			ax = append(ax, fmt.Sprintf("(assert (%s %s))", lp.Pred, name))
+		}
+	}
 	w.lits[name] = ax
 	w.litByText[s] = name
 	return name
